@@ -1,6 +1,6 @@
 (* C05 — sequentially, the containers refine a plain map plus a set of locked keys. *)
 From Coq Require Import List Arith ZArith.
-From LK Require Import AList Model Inv StepInv PropLemmas Seq DropInv SeqRefine SeqLimit.
+From LK Require Import AList Model Inv StepInv PropLemmas Seq DropInv Stream SeqRefine SeqLimit Conc.
 Import ListNotations.
 
 (* The guard operations (insert, remove, value_mut, try_insert, value_or_insert(_with), value) return and
@@ -152,3 +152,50 @@ Example C05_limit_witness :
     seq_cbret c (st (seq_call c (st (seq_call c s6 0 (SGop 2 GRemove))) 0 (SDrop 2))) 7 CbOk = ROk s9 (OGuard 3 3 None) /\
     map fst (s_ents s9) = [2; 3] /\ s_ops s9 = [].
 Proof. cbv zeta. eexists. eexists. split; [vm_compute; reflexivity|]. split; [vm_compute; reflexivity|]. split; reflexivity. Qed.
+
+(* ------------------------------------------------------------------ *)
+(* ... and beyond single-threaded histories (Conc.v): under EVERY interleaving of any number of agents -- calls in
+   flight, waiters, cancellations, eviction callbacks, streams, scans -- each step of the model acts on the plain
+   map + locked set as a short sequence of the abstract machine's own calls, chosen by what the client sees
+   ([explains]: nothing; the guard operation it issued; one acquisition when a guard is announced; the acquisitions
+   of one scan when guards are offered/returned; a release; or the hidden acquisition of a valueless entry by a
+   stream, released again without being shown), those calls are accepted by [spec_call] in that order, and they
+   return exactly what was announced (guard names, keys, values, results of guard operations) ... *)
+Theorem C05_every_interleaving_refines : forall c s sp l o s',
+  Inv s -> R s sp -> step c s l = ROk s' o -> is_consume l = false ->
+  exists calls os sp', explains l o calls os /\ spec_acts sp calls = Some (sp', os) /\ R s' sp'.
+Proof. exact conc_step_refines. Qed.
+
+(* ... so every concurrent history is linearisable with respect to the plain map + locked set: the concatenation of
+   the explaining calls is one sequential history of [spec_call] from the empty map, with the announced results,
+   ending in the abstraction of the final state. *)
+Theorem C05_concurrent_histories_linearise : forall c tr s',
+  otrace c init tr s' -> (forall e, In e tr -> is_consume (ev_label e) = false) ->
+  exists calls os sp', lin_run c init tr s' calls os /\ spec_acts spec_init calls = Some (sp', os) /\ R s' sp'.
+Proof. exact conc_history_linearisable. Qed.
+
+(* the try variants under concurrency: the step at which a try call tests the key fails only if the key is locked
+   or awaited by a pending acquisition, and succeeds -- with the stored value -- if it is neither *)
+Theorem C05_try_fails_only_if_locked_or_awaited : forall c s a sh k o s',
+  Inv s -> aget a (s_ops s) = Some (PKeyTry sh k) -> step c s (LResume a o) = ROk s' ONothing ->
+  (exists g, aget g (s_guards s) = Some k) \/ (exists a', waits_on s a' k).
+Proof. exact try_fails_only_if_locked_or_awaited. Qed.
+
+Theorem C05_try_succeeds_when_free : forall c s a sh k o,
+  Inv s -> aget a (s_ops s) = Some (PKeyTry sh k) ->
+  (forall g, aget g (s_guards s) <> Some k) -> (forall a', ~ waits_on s a' k) ->
+  exists s', step c s (LResume a o) = ROk s' (OGuard (s_gid s) k (vof s k)).
+Proof. exact try_succeeds_when_free. Qed.
+
+(* non-vacuity: an interleaved run of three agents (agent 1 waits for key 1 while agent 0 holds it and stores 5;
+   agent 2's try fails meanwhile) and the sequential history that explains it *)
+Example C05_linearisation_witness :
+  run (mkCfg true) [LStart 0 (CLock ShAsync 1 None); LStart 1 (CLock ShBlocking 1 None); LResume 0 []; LResume 1 [];
+                    LResume 1 []; LStart 2 (CLock ShTry 1 None); LGuardOp 0 (GInsert 5); LResume 2 []; LResume 2 [];
+                    LStart 3 (CDrop 0); LResume 2 []; LResume 3 []; LResume 1 []]
+  = RunOk (mkS [(1, mkE (Some (5, 0)%Z) (Some (OwnG 1)) [] 1)] [(1, 1)] [] 0%Z 2)
+          [ONothing; ONothing; OGuard 0 1 None; ONothing; ONothing; ONothing; OVal None; ONothing; ONothing;
+           ONothing; OTryFail; OUnit; OGuard 1 1 (Some 5%Z)] /\
+  exists sp', spec_acts spec_init [SLock ShBlocking 1; SGop 0 (GInsert 5); SDrop 0; SLock ShBlocking 1]
+              = Some (sp', [OGuard 0 1 None; OVal None; OUnit; OGuard 1 1 (Some 5%Z)]).
+Proof. split; [vm_compute; reflexivity|]. eexists. cbn. reflexivity. Qed.
